@@ -245,3 +245,38 @@ Theorem C11_time_scaling_refuted :
     deriv_integral_entry RO (thr, thr, thr) (w / lam) [0] (dt * lam) 0 0 0 0
     <> cscal RO (lam * lam) (deriv_integral_entry RO (thr, thr, thr) w [0] dt 0 0 0 0).
 Proof. exact time_scaling_refuted. Qed.
+
+(* --- the list-level functions evaluated by the correspondence check consist of the entries above (any Ops) --- *)
+Theorem C11_ctrlmat_deriv_entry : forall d thr th3 evs Vs Qs omega basis nopers copers ncoeffs dts ts use_ncd ncd a h s o k,
+  (a < List.length nopers)%nat -> (h < List.length copers)%nat -> (s < List.length dts)%nat ->
+  (o < List.length omega)%nat -> (k < List.length basis)%nat ->
+  let G := List.length dts in let nj := List.length basis in let no := List.length omega in
+  let phases := sh_phase RO ts omega G in
+  let BTs := sh_BT RO d Vs basis in
+  let NTs := noise_NT RO d Vs (nthm nopers a) (nthv ncoeffs a) G in
+  let steps := noise_steps RO d G nj no phases BTs (sh_ints RO d thr evs dts omega) NTs in
+  let cd := nth h (map (ctrl_data RO d G nj evs Vs Qs dts (sh_X RO d Qs basis G)) copers) ([], []) in
+  let SD := pair_SD RO d G nj no phases BTs (sh_DIs RO d th3 evs dts omega) NTs (fst cd) steps use_ncd
+                    (nth2 [] ncd a h) (nthv ncoeffs a) in
+  nth k (nth o (nth s (nth h (nth a
+    (ctrlmat_deriv RO d thr th3 evs Vs Qs omega basis nopers copers ncoeffs dts ts use_ncd ncd) []) []) []) []) 0c
+  = assemble_entry RO nj G (fun j => nth3 0c SD s j o) (rget RO (nth s (sh_Ls RO d Qs basis) []))
+      (fun g j => nth3 0c steps g j o) (fun t j k' => nth4 0 (snd cd) t s j k') k.
+Proof. exact (ctrlmat_deriv_entry RO). Qed.
+Theorem C11_pair_SD_entry : forall d G nj no phases BTs DIs NTs CBs steps use_ncd ncd_row s_row g j o,
+  (g < G)%nat -> (j < nj)%nat -> (o < no)%nat ->
+  nth3 0c (pair_SD RO d G nj no phases BTs DIs NTs CBs steps use_ncd ncd_row s_row) g j o
+  = let base := step_deriv_entry RO d (nth2 0c phases g o) (nth2 [] BTs g j)
+                  (mbuild d d (M_entry RO d (a4get RO (nth2 [] DIs g o)) (nthm CBs g) (nthm NTs g))) in
+    if use_ncd then cadd' base (sens_term RO (vg RO ncd_row g) (vg RO s_row g) (nth3 0c steps g j o))
+    else base.
+Proof. exact (pair_SD_entry RO). Qed.
+Theorem C11_a4get_deriv_integral : forall d th3 w ev dt p q m n, (p < d)%nat -> (q < d)%nat -> (m < d)%nat -> (n < d)%nat ->
+  a4get RO (deriv_integral RO d th3 w ev dt) p q m n = deriv_integral_entry RO th3 w ev dt p q m n.
+Proof. exact (a4get_deriv_integral RO). Qed.
+Theorem C11_filter_function_derivative_entry : forall na nh G nj no Bm CD a s h o,
+  (a < na)%nat -> (s < G)%nat -> (h < nh)%nat -> (o < no)%nat ->
+  nth4 0 (filter_function_derivative RO na nh G nj no Bm CD) a s h o
+  = ffd_entry RO nj (fun k => a3get RO Bm a k o)
+                    (fun k => nth k (nth o (nth s (nth h (nth a CD []) []) []) []) 0c).
+Proof. exact (filter_function_derivative_entry RO). Qed.
